@@ -12,6 +12,8 @@
 import DuckModel.Sdk.Flow
 import DuckModel.Spec.TreeWF
 
+set_option linter.unusedSimpArgs false
+
 namespace Duck
 open Duck.Spec Duck.Generated
 
@@ -244,5 +246,183 @@ theorem fcLoop_skipTo (skipTo delta : Nat) (middle : List Nat) :
     omega
 
 end steps
+
+/-! ### Part 3: a list of script instructions sits at offset `off` of the program -/
+
+def Seg (is : List Instruction) (off : Nat) (l : List ScriptInstr) : Prop :=
+  off + l.length ≤ is.length ∧ ∀ k si, l[k]? = some si → commandAt is (off + k) = si.command
+
+theorem Seg.head {is : List Instruction} {off : Nat} {x : ScriptInstr} {l : List ScriptInstr}
+    (h : Seg is off (x :: l)) : commandAt is off = x.command := by
+  have := h.2 0 x (by simp)
+  simpa using this
+
+theorem Seg.tail {is : List Instruction} {off : Nat} {x : ScriptInstr} {l : List ScriptInstr}
+    (h : Seg is off (x :: l)) : Seg is (off + 1) l := by
+  refine ⟨by have := h.1; simp at this; omega, ?_⟩
+  intro k si hk
+  have := h.2 (k + 1) si (by simpa using hk)
+  rw [← this]; congr 1; omega
+
+theorem Seg.left {is : List Instruction} {off : Nat} {a b : List ScriptInstr}
+    (h : Seg is off (a ++ b)) : Seg is off a := by
+  refine ⟨by have := h.1; simp at this; omega, ?_⟩
+  intro k si hk
+  have hlt : k < a.length := by
+    rcases Nat.lt_or_ge k a.length with h' | h'
+    · exact h'
+    · rw [List.getElem?_eq_none h'] at hk; cases hk
+  exact h.2 k si (by rw [List.getElem?_append_left hlt]; exact hk)
+
+theorem Seg.right {is : List Instruction} {off : Nat} {a b : List ScriptInstr}
+    (h : Seg is off (a ++ b)) : Seg is (off + a.length) b := by
+  refine ⟨by have := h.1; simp at this; omega, ?_⟩
+  intro k si hk
+  have := h.2 (a.length + k) si (by rw [List.getElem?_append_right (by omega)]; simpa using hk)
+  rw [← this]; congr 1; omega
+
+theorem program_go_getElem? : ∀ (l : List ScriptInstr) (n k : Nat),
+    (program.go l n)[k]? = l[k]?.map (fun si => ⟨{ line := some (n + k), source := none }, .script si⟩) := by
+  intro l
+  induction l with
+  | nil => intro n k; simp [program.go]
+  | cons x l ih =>
+    intro n k
+    cases k with
+    | zero => simp [program.go]
+    | succ k =>
+      simp only [program.go, List.getElem?_cons_succ, ih]
+      have : n + 1 + k = n + (k + 1) := by omega
+      rw [this]
+
+theorem program_go_length : ∀ (l : List ScriptInstr) (n : Nat), (program.go l n).length = l.length := by
+  intro l
+  induction l with
+  | nil => intro n; simp [program.go]
+  | cons x l ih => intro n; simp [program.go, ih]
+
+theorem Seg_intro (pre post : List Instruction) (l : List ScriptInstr) :
+    Seg (pre ++ instrsFrom pre.length l ++ post) pre.length l := by
+  refine ⟨by simp [instrsFrom, program_go_length], ?_⟩
+  intro k si hk
+  have hlt : k < l.length := by
+    rcases Nat.lt_or_ge k l.length with h' | h'
+    · exact h'
+    · rw [List.getElem?_eq_none h'] at hk; cases hk
+  unfold commandAt
+  rw [List.append_assoc, List.getElem?_append_right (by omega)]
+  rw [List.getElem?_append_left (by simp [instrsFrom, program_go_length]; omega)]
+  simp [instrsFrom, program_go_getElem?, hk]
+
+theorem Seg_length_le {is : List Instruction} {off : Nat} {l : List ScriptInstr} (h : Seg is off l) :
+    off + l.length ≤ is.length := h.1
+
+/-! ### Part 4: walking over a list of instructions -/
+
+/-- scanning the instructions `l` (sitting at `off`) as an inner part of a search for the end of a
+    block of kind `K` leaves the state as it was, except for the recorded else-lines `mids off` -/
+def ScanP (K : Kind) (is : List Instruction) (l : List ScriptInstr) (mids : Nat → List Nat) : Prop :=
+  ∀ (fuel off n skipTo delta : Nat) (middle : List Nat),
+    Seg is off l → l.length ≤ fuel → skipTo ≤ off → l.length ≤ n →
+    ∃ skipTo', skipTo' ≤ off + l.length ∧
+      fcLoop K.tbl is (findCommandsF K.tbl is fuel) n off skipTo delta middle =
+      fcLoop K.tbl is (findCommandsF K.tbl is fuel) (n - l.length) (off + l.length) skipTo' delta
+        (middle ++ mids off)
+
+theorem ScanP.congr {K : Kind} {is : List Instruction} {l : List ScriptInstr} {f g : Nat → List Nat}
+    (h : ScanP K is l f) (hfg : ∀ off, f off = g off) : ScanP K is l g := by
+  have : f = g := funext hfg
+  rw [← this]; exact h
+
+theorem scan_nil (K : Kind) (is : List Instruction) : ScanP K is [] (fun _ => []) := by
+  intro fuel off n skipTo delta middle _ _ hs _
+  exact ⟨skipTo, by simpa using hs, by simp⟩
+
+theorem scan_append {K : Kind} {is : List Instruction} {a b : List ScriptInstr} {f g : Nat → List Nat}
+    (ha : ScanP K is a f) (hb : ScanP K is b g) :
+    ScanP K is (a ++ b) (fun off => f off ++ g (off + a.length)) := by
+  intro fuel off n skipTo delta middle hseg hfuel hs hn
+  simp only [List.length_append] at hfuel hn
+  obtain ⟨s1, hs1, e1⟩ := ha fuel off n skipTo delta middle hseg.left (by omega) hs (by omega)
+  obtain ⟨s2, hs2, e2⟩ := hb fuel (off + a.length) (n - a.length) s1 delta (middle ++ f off)
+    hseg.right (by omega) hs1 (by omega)
+  refine ⟨s2, by simp only [List.length_append]; omega, ?_⟩
+  rw [e1, e2]
+  simp only [List.length_append, List.append_assoc]
+  congr 1 <;> omega
+
+theorem scan_plain {K : Kind} {is : List Instruction} (o : Option Str) (c : Str) (a : List Str)
+    (hk : cls K.tbl c = .plain) : ScanP K is [mkInstr o c a] (fun _ => []) := by
+  intro fuel off n skipTo delta middle hseg _ hs hn
+  obtain ⟨m, rfl⟩ : ∃ m, n = m + 1 := ⟨n - 1, by simp at hn; omega⟩
+  refine ⟨skipTo, by simp; omega, ?_⟩
+  rw [fcLoop_plain _ _ _ m off skipTo delta middle c hs (by rw [hseg.head]; rfl) hk]
+  simp
+
+theorem scan_mid {K : Kind} {is : List Instruction} (o : Option Str) (c : Str) (a : List Str)
+    (hk : cls K.tbl c = .mid) : ScanP K is [mkInstr o c a] (fun off => [off]) := by
+  intro fuel off n skipTo delta middle hseg _ hs hn
+  obtain ⟨m, rfl⟩ : ∃ m, n = m + 1 := ⟨n - 1, by simp at hn; omega⟩
+  refine ⟨skipTo, by simp; omega, ?_⟩
+  rw [fcLoop_mid _ _ _ m off skipTo delta middle c hs (by rw [hseg.head]; rfl) hk]
+  simp
+
+/-- a block of another kind: the opener raises `delta`, its end word lowers it again -/
+theorem scan_other {K : Kind} {is : List Instruction} (o : Option Str) (ko : Str) (a : List Str)
+    (ke : Str) (inner : List ScriptInstr)
+    (hko : cls K.tbl ko = .sb) (hke : (cls K.tbl ke).isEB = true)
+    (hin : ScanP K is inner (fun _ => [])) :
+    ScanP K is (mkInstr o ko a :: (inner ++ [mkInstr none ke []])) (fun _ => []) := by
+  intro fuel off n skipTo delta middle hseg hfuel hs hn
+  simp only [List.length_cons, List.length_append, List.length_nil] at hfuel hn
+  obtain ⟨m, rfl⟩ : ∃ m, n = m + 1 := ⟨n - 1, by omega⟩
+  rw [fcLoop_sb _ _ _ m off skipTo delta middle ko hs (by rw [hseg.head]; rfl) hko]
+  obtain ⟨s1, hs1, e1⟩ := hin fuel (off + 1) m skipTo (delta + 1) middle hseg.tail.left (by omega)
+    (by omega) (by omega)
+  rw [e1]
+  obtain ⟨m', hm'⟩ : ∃ m', m - inner.length = m' + 1 := ⟨m - inner.length - 1, by omega⟩
+  rw [hm']
+  rw [fcLoop_eb _ _ _ m' (off + 1 + inner.length) s1 delta _ ke hs1
+    (by rw [hseg.tail.right.head]; rfl) hke]
+  refine ⟨s1, by simp only [List.length_cons, List.length_append, List.length_nil]; omega, ?_⟩
+  simp only [List.length_cons, List.length_append, List.length_nil, List.append_nil]
+  congr 1 <;> omega
+
+/-- the search itself: started on the line after the opener it finds the end word -/
+theorem scan_main {K : Kind} {is : List Instruction} (x : ScriptInstr) (ke : Str)
+    (inner : List ScriptInstr) (mids : Nat → List Nat) (fuel off : Nat)
+    (hke : (cls K.tbl ke).isEN = true) (hin : ScanP K is inner mids)
+    (hseg : Seg is off (x :: (inner ++ [mkInstr none ke []])))
+    (hfuel : inner.length + 1 ≤ fuel) :
+    findCommandsF K.tbl is fuel (off + 1) = .ok ⟨mids (off + 1), off + 1 + inner.length⟩ := by
+  obtain ⟨f, rfl⟩ : ∃ f, fuel = f + 1 := ⟨fuel - 1, by omega⟩
+  have hlen := hseg.1
+  simp only [List.length_cons, List.length_append, List.length_nil] at hlen
+  rw [findCommandsF, if_neg (names_nonempty K)]
+  obtain ⟨s1, hs1, e1⟩ := hin f (off + 1) (is.length - (off + 1)) (off + 1) 0 [] hseg.tail.left
+    (by omega) (by omega) (by omega)
+  rw [e1]
+  obtain ⟨m', hm'⟩ : ∃ m', is.length - (off + 1) - inner.length = m' + 1 :=
+    ⟨is.length - (off + 1) - inner.length - 1, by omega⟩
+  rw [hm']
+  rw [fcLoop_en _ _ _ m' (off + 1 + inner.length) s1 _ ke hs1 (by rw [hseg.tail.right.head]; rfl) hke]
+  simp
+
+/-- a nested block of the same kind is found by the recursive search and skipped -/
+theorem scan_same {K : Kind} {is : List Instruction} (o : Option Str) (ko : Str) (a : List Str)
+    (ke : Str) (inner : List ScriptInstr) (mids : Nat → List Nat)
+    (hko : cls K.tbl ko = .sn) (hrec : K.tbl.allowRecursive = true) (hke : (cls K.tbl ke).isEN = true)
+    (hin : ScanP K is inner mids) :
+    ScanP K is (mkInstr o ko a :: (inner ++ [mkInstr none ke []])) (fun _ => []) := by
+  intro fuel off n skipTo delta middle hseg hfuel hs hn
+  simp only [List.length_cons, List.length_append, List.length_nil] at hfuel hn
+  obtain ⟨m, rfl⟩ : ∃ m, n = m + 1 := ⟨n - 1, by omega⟩
+  have hmain := scan_main (mkInstr o ko a) ke inner mids fuel off hke hin hseg (by omega)
+  rw [fcLoop_sn _ _ _ m off skipTo delta middle ko _ hs (by rw [hseg.head]; rfl) hko hrec hmain]
+  rw [fcLoop_skipTo _ _ _ _ delta middle (inner.length + 1) m (off + 1) (by simp; omega) (by omega)]
+  refine ⟨off + 1 + inner.length + 1, by simp only [List.length_cons, List.length_append, List.length_nil]; omega, ?_⟩
+  simp only [List.length_cons, List.length_append, List.length_nil, List.append_nil]
+  congr 1 <;> omega
+
 
 end Duck
